@@ -12,36 +12,28 @@ Lemma pop_list_forall {A} (f : list A -> bool) (q : list (list A)) : forallb f q
   f (fst (pop_list q)) = true /\ forallb f (snd (pop_list q)) = true.
 Proof. destruct q as [|x q]; cbn; [auto|]. intros H _. apply andb_true_iff in H. exact H. Qed.
 
-Lemma scr_ok_pop ext si s : scr_ok ext (scr s) = true -> scr_ok ext (scr (snd (pop_script si s))) = true.
+Lemma scr_ok_pop si s : scr_ok (scr s) = true -> scr_ok (scr (snd (pop_script si s))) = true.
 Proof.
   unfold scr_ok. intros H. repeat (apply andb_true_iff in H as [H ?]).
   destruct si; unfold pop_script;
     match goal with |- context [pop_list ?l] => destruct (pop_list l) eqn:E end;
     cbn [snd scr set_scr q_open q_discopen q_close q_unregw q_regw];
     repeat (apply andb_true_iff; split); try assumption.
-  - destruct ext.
-    + pose proof (pop_list_noreconn _ H) as [_ X]. rewrite E in X. exact X.
-    + pose proof (pop_list_forall is_nil _ H eq_refl) as [_ X]. rewrite E in X. exact X.
+  - pose proof (pop_list_noreconn _ H) as [_ X]. rewrite E in X. exact X.
   - pose proof (pop_list_forall (forallb is_pubsub) _ H2 eq_refl) as [_ X]. rewrite E in X. exact X.
   - pose proof (pop_list_noreconn _ H0) as [_ X]. rewrite E in X. exact X.
   - pose proof (pop_list_forall (forallb is_pubsub) _ H1 eq_refl) as [_ X]. rewrite E in X. exact X.
 Qed.
 
-Lemma scr_ok_regw ext q : scr_ok ext q = true -> queue_noreconn (q_regw q) = true.
+Lemma scr_ok_regw q : scr_ok q = true -> queue_noreconn (q_regw q) = true.
 Proof. unfold scr_ok. intros H. repeat (apply andb_true_iff in H as [H ?]). assumption. Qed.
 
-Lemma scr_ok_pop_open_direct s : scr_ok false (scr s) = true -> fst (pop_script SiOpen s) = [].
-Proof.
-  unfold scr_ok. intros H. repeat (apply andb_true_iff in H as [H ?]). unfold pop_script.
-  destruct (q_open (scr s)) as [|x q]; cbn; [reflexivity|]. cbn in H. apply andb_true_iff in H as [H _].
-  destruct x; [reflexivity|discriminate].
-Qed.
-Lemma scr_ok_pop_open_ext s : scr_ok true (scr s) = true -> script_noreconn (fst (pop_script SiOpen s)) = true.
+Lemma scr_ok_pop_open s : scr_ok (scr s) = true -> script_noreconn (fst (pop_script SiOpen s)) = true.
 Proof.
   unfold scr_ok. intros H. repeat (apply andb_true_iff in H as [H ?]). unfold pop_script.
   pose proof (pop_list_noreconn _ H) as [X _]. destruct (pop_list (q_open (scr s))). exact X.
 Qed.
-Lemma scr_ok_pop_teardown ext si s : (si = SiClose \/ si = SiUnregW) -> scr_ok ext (scr s) = true ->
+Lemma scr_ok_pop_teardown si s : (si = SiClose \/ si = SiUnregW) -> scr_ok (scr s) = true ->
   forallb is_pubsub (fst (pop_script si s)) = true.
 Proof.
   unfold scr_ok. intros Hsi H. repeat (apply andb_true_iff in H as [H ?]). unfold pop_script.
@@ -50,7 +42,7 @@ Proof.
   - pose proof (pop_list_forall (forallb is_pubsub) _ H1 eq_refl) as [X _]. destruct (pop_list (q_unregw (scr s))). exact X.
 Qed.
 
-Lemma scr_ok_quiet ext s s' : quiet_rel s s' -> scr_ok ext (scr s) = true -> scr_ok ext (scr s') = true.
+Lemma scr_ok_quiet s s' : quiet_rel s s' -> scr_ok (scr s) = true -> scr_ok (scr s') = true.
 Proof.
   intros Q. destruct (qr_scr _ _ Q) as (_ & _ & A3 & A4 & A5 & _ & _ & A8).
   unfold scr_ok. intros H. repeat (apply andb_true_iff in H as [H ?]).
@@ -91,11 +83,16 @@ Qed.
 Lemma SockRel_quiet s s' : quiet_rel s s' -> SockRel s s'.
 Proof. intros Q. split; [rewrite (qr_nsock _ _ Q); lia|]. intros x H. left. rewrite <- (qr_sock _ _ Q). exact H. Qed.
 
+(* a nested call that may call reconnect() does not write: external-loop mode or _in_callback_mutex held *)
+Definition NWs (c : cfg) (s : st) : Prop := c_ext c = true \/ incb s = true.
+Lemma NWs_NW c s : NWs c s -> NW c s.
+Proof. intros [A|A]; [left; exact A|right; left; exact A]. Qed.
+
 Section C10.
 Variable c : cfg.
 Variable k0 : k10.
 Notation KS10 := (KS k10_ev k0).
-Notation sok := (scr_ok (c_ext c)).
+Notation sok := scr_ok.
 Definition Pre (w : bool) (s : st) : Prop := V w s (KS10 s) /\ sok (scr s) = true.
 
 Lemma Pre_frame w s s' : tr s' = tr s -> sock s' = sock s -> cs s' = cs s -> outq s' = outq s ->
@@ -116,7 +113,7 @@ Proof.
 Qed.
 
 Variable nested : list acall -> st -> st.
-Hypothesis Hn : forall sc s, NW c s -> Pre true s ->
+Hypothesis Hn : forall sc s, NWs c s -> Pre true s ->
   Pre true (nested sc s) /\ incb (nested sc s) = incb s /\ Rel s (nested sc s) /\ SockRel s (nested sc s).
 Hypothesis Hq : forall sc s, NW c s -> script_noreconn sc = true ->
   queue_noreconn (q_regw (scr s)) = true -> quiet_rel s (nested sc s).
@@ -133,9 +130,9 @@ Proof.
   rewrite E.
   pose proof (Pre_obs true (WCb si) _ HP) as HP1.
   pose proof (pop_script_frame si (obs (WCb si) (emit ev s))) as F.
-  pose proof (scr_ok_pop (c_ext c) si (obs (WCb si) (emit ev s)) (proj2 HP1)) as HS.
+  pose proof (scr_ok_pop si (obs (WCb si) (emit ev s)) (proj2 HP1)) as HS.
   destruct (pop_script si (obs (WCb si) (emit ev s))) as [sc s2]. cbn [fst snd] in *.
-  destruct F as (Fcs & Fsock & Fregw & Foutq & Fping & Fincb & Fproto & Fnsock & Fsched & Ftr).
+  destruct F as (Fcs & Fsock & Fregw & Foutq & Fping & Fincb & Fcq & Fproto & Fnsock & Fsched & Ftr).
   gsimpl.
   assert (HP2 : Pre true s2).
   { destruct HP1 as (HV & _). split; [|exact HS].
@@ -144,7 +141,7 @@ Proof.
   - split; [exact HP2|]. split; [exact Fincb|]. intros H. left. rewrite Fsock in H. split; [exact H|exact Foutq].
   - set (s3 := set_incb (held || incb s2) s2).
     assert (HP3 : Pre true s3) by (eapply Pre_frame; [| | | | | |exact HP2]; reflexivity).
-    assert (Hnw : NW c s3).
+    assert (Hnw : NWs c s3).
     { destruct held; [right; reflexivity|left; apply Hx; reflexivity]. }
     destruct (Hn (a :: sc) s3 Hnw HP3) as (N1 & N2 & N3 & _).
     split; [eapply Pre_frame; [| | | | | |exact N1]; reflexivity|]. split; [ssimpl; exact Fincb|].
@@ -153,32 +150,27 @@ Proof.
     + intros _. unfold s3. ssimpl. exact Foutq.
 Qed.
 
-(* on_socket_open right after the socket was created: no script in direct-write mode (exclusion D), a
-   reconnect()-free one in external-loop mode, which only queues behind the CONNECT to come *)
-Lemma run_site_open ev s : Pre false (emit ev s) ->
+(* on_socket_open right after the socket was created: CONNECT is not queued yet, so whatever its
+   (reconnect()-free, exclusion D) script calls is only queued, behind the CONNECT to come *)
+Lemma run_site_open ev s : Pre false (emit ev s) -> cq s = false ->
   let s' := run_site nested SiOpen false ev s in
   Pre false s' /\ incb s' = incb s /\ sock s' = sock s /\ nsock s' = nsock s.
 Proof.
-  intros HP. unfold run_site. cbn [andb].
+  intros HP Hcq. unfold run_site. cbn [andb].
   pose proof (Pre_obs false (WCb SiOpen) _ HP) as HP1.
   pose proof (pop_script_frame SiOpen (obs (WCb SiOpen) (emit ev s))) as F.
-  pose proof (scr_ok_pop (c_ext c) SiOpen (obs (WCb SiOpen) (emit ev s)) (proj2 HP1)) as HS.
-  assert (Hsc : (c_ext c = false /\ fst (pop_script SiOpen (obs (WCb SiOpen) (emit ev s))) = []) \/
-                (c_ext c = true /\ script_noreconn (fst (pop_script SiOpen (obs (WCb SiOpen) (emit ev s)))) = true)).
-  { destruct HP1 as (_ & X). destruct (c_ext c); [right|left]; (split; [reflexivity|]).
-    - apply scr_ok_pop_open_ext. exact X.
-    - apply scr_ok_pop_open_direct. exact X. }
+  pose proof (scr_ok_pop SiOpen (obs (WCb SiOpen) (emit ev s)) (proj2 HP1)) as HS.
+  pose proof (scr_ok_pop_open (obs (WCb SiOpen) (emit ev s)) (proj2 HP1)) as Hnr.
   destruct (pop_script SiOpen (obs (WCb SiOpen) (emit ev s))) as [sc s2]. cbn [fst snd] in *.
-  destruct F as (Fcs & Fsock & Fregw & Foutq & Fping & Fincb & Fproto & Fnsock & Fsched & Ftr).
+  destruct F as (Fcs & Fsock & Fregw & Foutq & Fping & Fincb & Fcq & Fproto & Fnsock & Fsched & Ftr).
   gsimpl.
   assert (HP2 : Pre false s2).
   { destruct HP1 as (HV & _). split; [|exact HS].
     rewrite (KS_frame _ _ _ _ Ftr). eapply V_frame; [exact Fsock|exact Fcs|exact Foutq|exact Fnsock|exact HV]. }
   destruct sc as [|a sc]; [split; [exact HP2|]; split; [exact Fincb|]; split; assumption|].
-  destruct Hsc as [[_ X]|[Ex Hnr]]; [discriminate X|].
   set (s3 := set_incb (false || incb s2) s2).
   assert (Q : quiet_rel s3 (nested (a :: sc) s3)).
-  { apply Hq; [left; exact Ex|exact Hnr|apply (scr_ok_regw (c_ext c)); exact HS]. }
+  { apply Hq; [right; right; unfold s3; ssimpl; congruence|exact Hnr|apply scr_ok_regw; exact HS]. }
   destruct HP2 as (V2 & _).
   pose proof (V_quiet false [] s3 (nested (a :: sc) s3) k0 Q) as X. cbn [app] in X.
   assert (V3 : V false (nested (a :: sc) s3) (KS10 (nested (a :: sc) s3))).
@@ -214,10 +206,10 @@ Proof.
   { constructor; try reflexivity; [|auto]. unfold s1, obs. rewrite KS_emit, KS_emit, (k10_inert _ ev Hev).
     apply k10_obs_tear; [destruct Hsi as [-> | ->]; reflexivity|exact Hok]. }
   pose proof (pop_script_frame si s1) as F.
-  pose proof (scr_ok_pop (c_ext c) si s1 HS) as HS2.
-  pose proof (scr_ok_pop_teardown (c_ext c) si s1 Hsi HS) as Hps.
+  pose proof (scr_ok_pop si s1 HS) as HS2.
+  pose proof (scr_ok_pop_teardown si s1 Hsi HS) as Hps.
   destruct (pop_script si s1) as [sc s2]. cbn [fst snd] in *.
-  destruct F as (Fcs & Fsock & Fregw & Foutq & Fping & Fincb & Fproto & Fnsock & Fsched & Ftr).
+  destruct F as (Fcs & Fsock & Fregw & Foutq & Fping & Fincb & Fcq & Fproto & Fnsock & Fsched & Ftr).
   assert (T2 : tear s1 s2).
   { constructor; try assumption; [|auto]. apply KS_frame. exact Ftr. }
   eapply tear_trans; [exact T1|]. eapply tear_trans; [exact T2|].
@@ -283,7 +275,7 @@ Qed.
 Lemma call_regw_Q s : sok (scr s) = true -> quiet_rel s (call_regw c nested s).
 Proof.
   intros HS. destruct (Bool.bool_dec (c_ext c) true) as [Ex|Ex].
-  - apply call_regw_quiet; [exact Hq|left; exact Ex|apply (scr_ok_regw (c_ext c)); exact HS].
+  - apply call_regw_quiet; [exact Hq|left; exact Ex|apply scr_ok_regw; exact HS].
   - apply not_true_is_false in Ex. unfold call_regw. destruct (sock s) eqn:Es; [|apply quiet_refl].
     destruct (regw s) eqn:Er; [apply quiet_refl|]. rewrite Ex.
     apply quiet_frame; try reflexivity; ssimpl; try reflexivity; congruence.
@@ -351,24 +343,33 @@ Proof. intros. unfold keepalive_close. apply lost_N with (id := id); auto. unfol
 
 (* ---- _packet_queue and reconnect(), for both layers ---- *)
 Definition queued (k : pkind) (s : st) : st :=
-  set_outq (match k with KConnect => mkQ k false :: outq s | _ => outq s ++ [mkQ k false] end) s.
+  match k with
+  | KConnect => set_cq true (set_outq (mkQ k false :: outq s) s)
+  | _ => set_outq (outq s ++ [mkQ k false]) s
+  end.
+
+Lemma queued_nc k s : is_connect k = false -> queued k s = set_outq (outq s ++ [mkQ k false]) s.
+Proof. destruct k; try discriminate; reflexivity. Qed.
 
 (* what is needed of _packet_queue(CONNECT) on states satisfying G *)
 Definition PQspec (G : st -> Prop) : Prop := forall s, G s -> Pre true (queued KConnect s) -> sock s <> None ->
   Pre true (fst (packet_queue c nested KConnect s)) /\ incb (fst (packet_queue c nested KConnect s)) = incb s /\
-  (NW c s -> quiet_rel (queued KConnect s) (fst (packet_queue c nested KConnect s))).
+  (NWs c s -> quiet_rel (queued KConnect s) (fst (packet_queue c nested KConnect s))).
 
 (* in a nested call nothing is written: register-write only *)
-Lemma packet_queue_Q k s : NW c s -> Pre true (queued k s) ->
+Lemma packet_queue_Q k s : NWs c s -> Pre true (queued k s) ->
   Pre true (fst (packet_queue c nested k s)) /\ incb (fst (packet_queue c nested k s)) = incb s /\
   quiet_rel (queued k s) (fst (packet_queue c nested k s)).
 Proof.
   intros Hnw HP. unfold packet_queue. fold (queued k s).
-  assert (E : negb (c_ext c) && negb (incb (queued k s)) = false).
-  { destruct Hnw as [A|A]; [rewrite A; reflexivity|]. unfold queued. ssimpl. rewrite A. apply andb_false_r. }
-  rewrite E. cbn [fst]. destruct (call_regw_N _ HP) as (A1 & A2 & A3). split; [exact A1|]. split; [exact A2|exact A3].
+  assert (E : negb (c_ext c) && cq (queued k s) && negb (incb (queued k s)) = false).
+  { destruct Hnw as [A|A]; [rewrite A; reflexivity|].
+    assert (X : incb (queued k s) = true) by (unfold queued; destruct k; ssimpl; exact A).
+    rewrite X. apply andb_false_r. }
+  rewrite E. cbn [fst]. destruct (call_regw_N _ HP) as (A1 & A2 & A3). split; [exact A1|]. split; [|exact A3].
+  rewrite A2. unfold queued. destruct k; reflexivity.
 Qed.
-Lemma PQspec_NW : PQspec (NW c).
+Lemma PQspec_NW : PQspec (NWs c).
 Proof. intros s Hnw HP _. destruct (packet_queue_Q KConnect s Hnw HP) as (A & B & C0). auto. Qed.
 
 (* the body of reconnect(), started at a stable point or inside the window after a written DISCONNECT *)
@@ -377,8 +378,8 @@ Lemma reconnect_body_G (G : st -> Prop) ok s :
   sok (scr s) = true -> (V true s (KS10 s) \/ exists id, Vc id s (KS10 s)) ->
   let r := reconnect_body c nested ok s in
   Pre true (fst r) /\ incb (fst r) = incb s /\
-  (NW c s -> (sock (fst r) = None -> outq (fst r) = []) /\ nsock s <= nsock (fst r) /\
-             forall x, sock (fst r) = Some x -> nsock s < x).
+  (NWs c s -> (sock (fst r) = None -> outq (fst r) = []) /\ nsock s <= nsock (fst r) /\
+              forall x, sock (fst r) = Some x -> nsock s < x).
 Proof.
   intros Hpq HG HGs HS HV. unfold reconnect_body.
   set (s1 := set_cs CsConnecting (set_ping false s)).
@@ -407,18 +408,19 @@ Proof.
     unfold is_connected, s3. ssimpl. rewrite CS2. reflexivity. }
   destruct ok; cbn [negb].
   2:{ cbn [fst]. split; [|split; [ssimpl; exact I2|]].
-      - apply Pre_emit; [reflexivity|]. split; [exact V3|exact HS2].
+      - apply Pre_emit; [reflexivity|]. split; [|exact HS2].
+        rewrite (KS_frame _ _ s3 (set_cq false s3)) by reflexivity. eapply V_frame; [| | | |exact V3]; reflexivity.
       - intros _. split; [intros _; reflexivity|]. split; [unfold s3; ssimpl; lia|]. unfold s3. ssimpl. rewrite S2. intros x X; discriminate X. }
   set (id := nsock s3 + 1).
-  set (s4 := emit (SockNew id) (set_regw false (set_sock (Some id) (set_nsock id s3)))).
+  set (s4 := emit (SockNew id) (set_regw false (set_sock (Some id) (set_nsock id (set_cq false s3))))).
   assert (P4 : Pre false s4).
   { split; [|exact HS2].
-    unfold s4. rewrite KS_emit. rewrite (KS_frame _ _ s3 (set_regw false (set_sock (Some id) (set_nsock id s3)))) by reflexivity.
+    unfold s4. rewrite KS_emit. rewrite (KS_frame _ _ s3 (set_regw false (set_sock (Some id) (set_nsock id (set_cq false s3))))) by reflexivity.
     eapply V_sock_new; [exact V3|exact S2|reflexivity|ssimpl; exact CS2|reflexivity|ssimpl; lia]. }
   assert (C5 : let s5 := (if c_sockcb c then run_site nested SiOpen false (SockOpen id) s4 else s4) in
                Pre false s5 /\ incb s5 = incb s /\ sock s5 = Some id /\ nsock s5 = id).
   { destruct (c_sockcb c).
-    - destruct (run_site_open (SockOpen id) s4) as (A1 & A2 & A3 & A4); [apply Pre_emit; [reflexivity|exact P4]|].
+    - destruct (run_site_open (SockOpen id) s4) as (A1 & A2 & A3 & A4); [apply Pre_emit; [reflexivity|exact P4]|reflexivity|].
       split; [exact A1|]. split; [rewrite A2; unfold s4; ssimpl; exact I2|]. split; [rewrite A3; reflexivity|rewrite A4; reflexivity].
     - split; [exact P4|]. split; [unfold s4; ssimpl; exact I2|split; reflexivity]. }
   set (s5 := if c_sockcb c then run_site nested SiOpen false (SockOpen id) s4 else s4) in *.
@@ -426,12 +428,12 @@ Proof.
   assert (P5' : Pre true (queued KConnect s5)).
   { destruct P5 as (X1 & X2). split; [|exact X2].
     rewrite (KS_frame _ _ s5 (queued KConnect s5)) by reflexivity.
-    apply V_append_connect. exact X1. }
+    unfold queued. eapply V_frame; [| | | |apply V_append_connect; exact X1]; reflexivity. }
   assert (G5 : G s5) by (eapply HG; [|exact HGs]; congruence).
   destruct (Hpq s5 G5 P5' ltac:(congruence)) as (A1 & A2 & A3).
   destruct (packet_queue c nested KConnect s5) as [s6 rc]. cbn [fst snd] in *.
   split; [exact A1|]. split; [congruence|].
-  intros Hnw. assert (Hnw5 : NW c s5) by (destruct Hnw as [Y|Y]; [left; exact Y|right; congruence]).
+  intros Hnw. assert (Hnw5 : NWs c s5) by (destruct Hnw as [Y|Y]; [left; exact Y|right; congruence]).
   pose proof (A3 Hnw5) as Q.
   assert (E6 : sock s6 = Some id) by (rewrite (qr_sock _ _ Q); exact S5).
   assert (N6 : nsock s6 = id) by (rewrite (qr_nsock _ _ Q); exact N5).
@@ -439,31 +441,29 @@ Proof.
   intros x X. assert (x = id) by congruence. subst x. unfold id, s3. ssimpl. lia.
 Qed.
 
-Lemma api_send_NW ck k s : NW c s -> Pre true s -> inert10 (Call ck) = true -> (ck = CPublish \/ ck = CSubscribe) ->
+Lemma api_send_NW ck k s : NWs c s -> Pre true s -> inert10 (Call ck) = true -> (ck = CPublish \/ ck = CSubscribe) ->
   is_connect k = false -> is_disconnect k = false ->
   let s' := fst (api_send c nested ck k s) in Pre true s' /\ quiet_rel s s'.
 Proof.
   intros Hnw HP Hck Hck2 Hk Hkd.
   assert (Q : quiet_rel s (fst (api_send c nested ck k s))).
-  { apply api_send_quiet; auto. apply (scr_ok_regw (c_ext c)). apply HP. }
+  { apply api_send_quiet; auto; [apply NWs_NW; exact Hnw|apply scr_ok_regw; apply HP]. }
   split; [|exact Q].
   unfold api_send. ssimpl.
   assert (HP1 : Pre true (emit (Call ck) s)) by (apply Pre_emit; assumption).
   destruct (sock s) as [id|] eqn:Es; cbn [fst]; [|exact HP1].
   apply packet_queue_Q; [destruct Hnw as [A|A]; [left|right]; exact A|].
-  destruct HP1 as (X1 & X2). split; [|exact X2].
-  rewrite (KS_frame _ _ (emit (Call ck) s) (queued k (emit (Call ck) s))) by reflexivity.
-  unfold queued. assert (Em : (match k with KConnect => mkQ k false :: outq (emit (Call ck) s) | _ => outq (emit (Call ck) s) ++ [mkQ k false] end)
-                               = outq (emit (Call ck) s) ++ [mkQ k false]) by (destruct k; try discriminate Hk; reflexivity).
-  rewrite Em. apply V_append; [exact X1|exact Hk|rewrite Hkd; discriminate].
+  destruct HP1 as (X1 & X2). rewrite (queued_nc k _ Hk). split; [|exact X2].
+  rewrite (KS_frame _ _ (emit (Call ck) s) (set_outq (outq (emit (Call ck) s) ++ [mkQ k false]) (emit (Call ck) s))) by reflexivity.
+  apply V_append; [exact X1|exact Hk|rewrite Hkd; discriminate].
 Qed.
 
-Lemma api_disconnect_NW s : NW c s -> Pre true s ->
+Lemma api_disconnect_NW s : NWs c s -> Pre true s ->
   let s' := fst (api_disconnect c nested s) in Pre true s' /\ quiet_rel s s'.
 Proof.
   intros Hnw (HV & HS).
   assert (Q : quiet_rel s (fst (api_disconnect c nested s))).
-  { apply api_disconnect_quiet; auto. apply (scr_ok_regw (c_ext c)). exact HS. }
+  { apply api_disconnect_quiet; auto; [apply NWs_NW; exact Hnw|apply scr_ok_regw; exact HS]. }
   split; [|exact Q].
   unfold api_disconnect. ssimpl. destruct (sock s) as [id|] eqn:Es; cbn [fst].
   - set (s1 := set_cs CsDisconnecting (emit (Call CDisconnect) s)).
@@ -480,13 +480,13 @@ Proof.
     apply V_call_disc_none; assumption.
 Qed.
 
-Lemma api_reconnect_NW ok s : NW c s -> sok (scr s) = true -> (V true s (KS10 s) \/ exists id, Vc id s (KS10 s)) ->
+Lemma api_reconnect_NW ok s : NWs c s -> sok (scr s) = true -> (V true s (KS10 s) \/ exists id, Vc id s (KS10 s)) ->
   let s' := fst (api_reconnect c nested ok s) in
   Pre true s' /\ incb s' = incb s /\ (sock s' = None -> outq s' = []) /\ nsock s <= nsock s' /\
   (forall x, sock s' = Some x -> nsock s < x).
 Proof.
   intros Hnw HS HV. unfold api_reconnect.
-  destruct (reconnect_body_G (NW c) ok (emit (Call CReconnect) s) PQspec_NW) as (A1 & A2 & A3).
+  destruct (reconnect_body_G (NWs c) ok (emit (Call CReconnect) s) PQspec_NW) as (A1 & A2 & A3).
   - intros s1 s2 E [X|X]; [left; exact X|right; congruence].
   - destruct Hnw as [X|X]; [left|right]; exact X.
   - exact HS.
@@ -497,7 +497,7 @@ Proof.
     split; [exact A1|]. split; [exact A2|]. split; [exact B1|]. split; [exact B2|exact B3].
 Qed.
 
-Lemma api_nested_N a s : NW c s -> Pre true s ->
+Lemma api_nested_N a s : NWs c s -> Pre true s ->
   let s' := api_nested c nested a s in Pre true s' /\ incb s' = incb s /\ Rel s s' /\ SockRel s s'.
 Proof.
   intros Hnw HP. destruct a; cbn [api_nested].
@@ -512,13 +512,13 @@ Proof.
     split; [exact A4|]. intros x X. right. apply A5. exact X.
 Qed.
 
-Lemma exec_script_N : forall sc s, NW c s -> Pre true s ->
+Lemma exec_script_N : forall sc s, NWs c s -> Pre true s ->
   let s' := exec_script c nested sc s in Pre true s' /\ incb s' = incb s /\ Rel s s' /\ SockRel s s'.
 Proof.
   unfold exec_script. induction sc as [|a sc IH]; intros s Hnw HP; cbn [fold_left].
   - split; [exact HP|]. split; [reflexivity|]. split; [apply Rel_refl|apply SockRel_refl].
   - destruct (api_nested_N a s Hnw HP) as (A1 & A2 & A3 & A4).
-    assert (Hnw' : NW c (api_nested c nested a s)) by (destruct Hnw as [X|X]; [left; exact X|right; congruence]).
+    assert (Hnw' : NWs c (api_nested c nested a s)) by (destruct Hnw as [X|X]; [left; exact X|right; congruence]).
     destruct (IH _ Hnw' A1) as (B1 & B2 & B3 & B4).
     split; [exact B1|]. split; [congruence|]. split; [eapply Rel_trans; eassumption|eapply SockRel_trans; eassumption].
 Qed.
@@ -528,7 +528,7 @@ Definition Cpost (id : Z) (s s' : st) : Prop :=
   incb s' = incb s /\ sok (scr s') = true /\
   (Vc id s' (KS10 s') \/ (Pre true s' /\ id <= nsock s' /\ forall x, sock s' = Some x -> id < x)).
 
-Lemma exec_script_C : forall sc s id, NW c s -> Vc id s (KS10 s) -> sok (scr s) = true ->
+Lemma exec_script_C : forall sc s id, NWs c s -> Vc id s (KS10 s) -> sok (scr s) = true ->
   Cpost id s (exec_script c nested sc s).
 Proof.
   unfold exec_script. induction sc as [|a sc IH]; intros s id Hnw HV HS; cbn [fold_left].
@@ -537,20 +537,20 @@ Proof.
     + destruct a as [| | |ok]; try discriminate Ea. cbn [api_nested].
       destruct (api_reconnect_NW ok s Hnw HS (or_intror (ex_intro _ id HV))) as (A1 & A2 & A3 & A4 & A5).
       set (s1 := fst (api_reconnect c nested ok s)) in *.
-      assert (Hnw1 : NW c s1) by (destruct Hnw as [X|X]; [left; exact X|right; congruence]).
+      assert (Hnw1 : NWs c s1) by (destruct Hnw as [X|X]; [left; exact X|right; congruence]).
       destruct (exec_script_N sc s1 Hnw1 A1) as (B1 & B2 & B3 & B4 & B5). unfold exec_script in *.
       assert (Hid : id <= nsock s) by (destruct HV; assumption).
       split; [congruence|]. split; [apply B1|]. right. split; [exact B1|]. split; [lia|].
       intros x X. destruct (B5 x X) as [Y|Y]; [specialize (A5 x Y); lia|lia].
-    + pose proof (api_nested_quiet c nested Hq a s Hnw (scr_ok_regw _ _ HS) Ea) as Q.
+    + pose proof (api_nested_quiet c nested Hq a s (NWs_NW _ _ Hnw) (scr_ok_regw _ HS) Ea) as Q.
       pose proof (Vc_quiet id _ _ k0 Q HV) as HV1.
-      assert (Hnw1 : NW c (api_nested c nested a s)) by (eapply NW_quiet; eassumption).
-      destruct (IH _ id Hnw1 HV1 (scr_ok_quiet _ _ _ Q HS)) as (B1 & B2 & B3).
+      assert (Hnw1 : NWs c (api_nested c nested a s)) by (destruct Hnw as [X|X]; [left; exact X|right; rewrite (qr_incb _ _ Q); exact X]).
+      destruct (IH _ id Hnw1 HV1 (scr_ok_quiet _ _ Q HS)) as (B1 & B2 & B3).
       split; [rewrite B1; exact (qr_incb _ _ Q)|]. split; [exact B2|exact B3].
 Qed.
 
 (* ---- the loop layer ---- *)
-Hypothesis Hc : forall sc s id, NW c s -> Vc id s (KS10 s) -> sok (scr s) = true -> Cpost id s (nested sc s).
+Hypothesis Hc : forall sc s id, NWs c s -> Vc id s (KS10 s) -> sok (scr s) = true -> Cpost id s (nested sc s).
 
 (* a DISCONNECT packet has just been written completely *)
 Lemma disc_written id p q' s s1 : Pre true s -> outq s = p :: q' -> qk p = KDisconnect -> sock s = Some id ->
@@ -585,9 +585,9 @@ Proof.
     destruct W1 as [d1 d2 d3 d4 d5 d6 d7 d8 d9 d10]. constructor; ssimpl; assumption. }
   assert (HSa : sok (scr sa) = true) by (unfold sa, s2; ssimpl; rewrite Fscr; exact HS).
   pose proof (pop_script_frame SiDiscOpen sa) as F.
-  pose proof (scr_ok_pop (c_ext c) SiDiscOpen sa HSa) as HSb.
+  pose proof (scr_ok_pop SiDiscOpen sa HSa) as HSb.
   destruct (pop_script SiDiscOpen sa) as [sc sb]. cbn [fst snd] in *.
-  destruct F as (Gcs & Gsock & Gregw & Goutq & Gping & Gincb & Gproto & Gnsock & Gsched & Gtr).
+  destruct F as (Gcs & Gsock & Gregw & Goutq & Gping & Gincb & Gcq & Gproto & Gnsock & Gsched & Gtr).
   assert (Wb : Vc id sb (KS10 sb)).
   { rewrite (KS_frame _ _ _ _ Gtr). dVc Wa. constructor; try assumption; congruence. }
   assert (Hib : incb sb = false) by (rewrite Gincb; unfold sa; ssimpl; exact Ei).
@@ -700,6 +700,7 @@ Lemma loop_write_N s : Pre true s -> incb s = false ->
   let r := loop_write c nested s in Pre true (fst r) /\ incb (fst r) = false.
 Proof.
   intros HP Hi. unfold loop_write. destruct (sock s) as [id|] eqn:Es; [|cbn [fst]; auto].
+  destruct (negb (cq s)); [cbn [fst]; auto|].
   unfold packet_write.
   destruct (pw_loop_N (pw_fuel s) s HP Hi ltac:(intros X; congruence)) as (A1 & A2 & A3).
   destruct (pw_loop c nested (pw_fuel s) s) as [s1 rc]. cbn [fst snd] in *.
@@ -718,18 +719,15 @@ Qed.
 
 Lemma packet_queue_N k s : Pre true (queued k s) ->
   let r := packet_queue c nested k s in
-  Pre true (fst r) /\ incb (fst r) = incb s /\ (NW c s -> quiet_rel (queued k s) (fst r)).
+  Pre true (fst r) /\ incb (fst r) = incb s /\ (NWs c s -> quiet_rel (queued k s) (fst r)).
 Proof.
-  intros HP. destruct (negb (c_ext c) && negb (incb s)) eqn:E.
-  - unfold packet_queue. fold (queued k s).
-    assert (E' : negb (c_ext c) && negb (incb (queued k s)) = true) by exact E. rewrite E'.
-    apply andb_true_iff in E as [E1 E2]. apply negb_true_iff in E1, E2.
-    destruct (loop_write_N (queued k s) HP E2) as (A1 & A2).
-    split; [exact A1|]. split; [rewrite A2; symmetry; exact E2|].
-    intros [X|X]; congruence.
-  - assert (Hnw : NW c s).
-    { apply andb_false_iff in E as [E|E]; apply negb_false_iff in E; [left|right]; exact E. }
-    destruct (packet_queue_Q k s Hnw HP) as (A1 & A2 & A3). auto.
+  intros HP. unfold packet_queue. fold (queued k s).
+  assert (Ei : incb (queued k s) = incb s) by (destruct k; reflexivity).
+  destruct (negb (c_ext c) && cq (queued k s) && negb (incb (queued k s))) eqn:E.
+  - apply andb_true_iff in E as [E E3]. apply andb_true_iff in E as [E1 E2]. apply negb_true_iff in E1, E3.
+    destruct (loop_write_N (queued k s) HP E3) as (A1 & A2).
+    split; [exact A1|]. split; [congruence|]. intros [X|X]; congruence.
+  - cbn [fst]. destruct (call_regw_N _ HP) as (A1 & A2 & A3). split; [exact A1|]. split; [congruence|]. intros _. exact A3.
 Qed.
 Lemma PQspec_top : PQspec (fun _ => True).
 Proof. intros s _ HP _. apply packet_queue_N. exact HP. Qed.
@@ -749,11 +747,9 @@ Proof.
   assert (HP1 : Pre true (emit (Call ck) s)) by (apply Pre_emit; assumption).
   destruct (sock s) as [id|] eqn:Es; cbn [fst]; [|auto].
   destruct (packet_queue_N k (emit (Call ck) s)) as (A1 & A2 & _); [|auto].
-  destruct HP1 as (X1 & X2). split; [|exact X2].
-  rewrite (KS_frame _ _ (emit (Call ck) s) (queued k (emit (Call ck) s))) by reflexivity.
-  unfold queued. assert (Em : (match k with KConnect => mkQ k false :: outq (emit (Call ck) s) | _ => outq (emit (Call ck) s) ++ [mkQ k false] end)
-                               = outq (emit (Call ck) s) ++ [mkQ k false]) by (destruct k; try discriminate Hk; reflexivity).
-  rewrite Em. apply V_append; [exact X1|exact Hk|rewrite Hkd; discriminate].
+  destruct HP1 as (X1 & X2). rewrite (queued_nc k _ Hk). split; [|exact X2].
+  rewrite (KS_frame _ _ (emit (Call ck) s) (set_outq (outq (emit (Call ck) s) ++ [mkQ k false]) (emit (Call ck) s))) by reflexivity.
+  apply V_append; [exact X1|exact Hk|rewrite Hkd; discriminate].
 Qed.
 
 Lemma api_disconnect_N s : Pre true s ->
@@ -896,8 +892,8 @@ Qed.
 End C10.
 
 (* ---- nesting depth ---- *)
-Lemma nested_at_N c k0 : forall d sc s, NW c s -> Pre c k0 true s ->
-  Pre c k0 true (nested_at c d sc s) /\ incb (nested_at c d sc s) = incb s /\ Rel s (nested_at c d sc s) /\
+Lemma nested_at_N c k0 : forall d sc s, NWs c s -> Pre k0 true s ->
+  Pre k0 true (nested_at c d sc s) /\ incb (nested_at c d sc s) = incb s /\ Rel s (nested_at c d sc s) /\
   SockRel s (nested_at c d sc s).
 Proof.
   induction d as [|d IH]; intros sc s Hnw HP; cbn [nested_at].
@@ -908,8 +904,8 @@ Proof.
     + intros sc' s' A B. apply nested_at_teardown_ps; assumption.
 Qed.
 
-Lemma nested_at_C c k0 d sc s id : NW c s -> Vc id s (KS k10_ev k0 s) -> scr_ok (c_ext c) (scr s) = true ->
-  Cpost c k0 id s (nested_at c d sc s).
+Lemma nested_at_C c k0 d sc s id : NWs c s -> Vc id s (KS k10_ev k0 s) -> scr_ok (scr s) = true ->
+  Cpost k0 id s (nested_at c d sc s).
 Proof.
   destruct d as [|d]; intros Hnw HV HS; cbn [nested_at].
   - split; [reflexivity|]. split; [exact HS|left]. rewrite KS_emit, (k10_inert _ Fuel) by reflexivity.
@@ -930,14 +926,14 @@ Let Hq := fun sc s (A : NW c s) B D => nested_at_quiet c d sc s A B D.
 Let Ht := fun sc s A B => nested_at_teardown_ps c d sc s A B.
 Let Hc := fun sc s id A B D => nested_at_C c k0 d sc s id A B D.
 
-Lemma run_top_N t s : Pre c k0 true s -> incb s = false ->
-  let s' := run_top c nst t s in Pre c k0 true s' /\ incb s' = false.
+Lemma run_top_N t s : Pre k0 true s -> incb s = false ->
+  let s' := run_top c nst t s in Pre k0 true s' /\ incb s' = false.
 Proof.
   intros HP Hi. destruct t as [ok|ok| | | |i| |m]; cbn [run_top].
   - destruct (api_connect_N c k0 nst Hn Hq Ht Hc ok s HP) as (A1 & A2).
     destruct (api_connect c nst ok s) as [s1 [rc|]]; cbn [ret_of fst] in *; (split; [|ssimpl; congruence]);
       [apply Pre_emit; [reflexivity|exact A1]|exact A1].
-  - assert (HP1 : Pre c k0 true (emit (Call CReconnect) s)) by (apply Pre_emit; [reflexivity|exact HP]).
+  - assert (HP1 : Pre k0 true (emit (Call CReconnect) s)) by (apply Pre_emit; [reflexivity|exact HP]).
     destruct (reconnect_body_N c k0 nst Hn Hq Ht Hc ok _ HP1) as (A1 & A2). unfold api_reconnect.
     destruct (reconnect_body c nst ok (emit (Call CReconnect) s)) as [s1 [rc|]]; cbn [ret_of fst] in *; (split; [|ssimpl; congruence]);
       [apply Pre_emit; [reflexivity|exact A1]|exact A1].
@@ -971,7 +967,7 @@ Definition Top10 (s : st) (k : k10) : Prop := V true s k /\ incb s = false.
 Lemma Top10_ok s k : Top10 s k -> k10_okb k = true.
 Proof. intros [HV _]. dV HV. unfold k10_okb. rewrite ok1, ok2, ok3. reflexivity. Qed.
 
-Lemma scr_ok_of c o : c10_hyp c o = true -> scr_ok (c_ext c) (o_scr o) = true.
+Lemma scr_ok_of c o : c10_hyp c o = true -> scr_ok (o_scr o) = true.
 Proof.
   unfold c10_hyp, excl_D, excl_R, scr_ok. intros H. apply andb_true_iff in H as [A C0].
   apply andb_true_iff in C0 as [C0 C3]. apply andb_true_iff in C0 as [C1 C2].
@@ -983,11 +979,11 @@ Lemma Top10_step c s k o : Top10 s k -> c10_hyp c o = true ->
 Proof.
   intros [HV Hi] Hh. unfold step.
   set (s0 := set_incb false (set_sched (o_sched o) (set_scr (o_scr o)
-               (mkSt (cs s) (sock s) (regw s) (outq s) (ping s) (incb s) (proto s) (nsock s) (sched s) (scr s) [])))).
-  assert (HP0 : Pre c k true s0).
+               (mkSt (cs s) (sock s) (regw s) (outq s) (ping s) (incb s) (cq s) (proto s) (nsock s) (sched s) (scr s) [])))).
+  assert (HP0 : Pre k true s0).
   { split.
     - unfold KS, s0. cbn. apply V_frame with (s := s); try reflexivity. exact HV.
-    - apply scr_ok_of. exact Hh. }
+    - apply (scr_ok_of c). exact Hh. }
   destruct (run_top_N c k (nscripts (o_scr o)) (o_call o) s0 HP0 eq_refl) as (A1 & A2).
   set (s1 := run_top c (nested_at c (nscripts (o_scr o))) (o_call o) s0) in *.
   cbn [fst snd]. rewrite fold_left_rev_KS.
